@@ -25,8 +25,22 @@ CONSTANTS
   WaitBeforePrint = %s
   ReleaseAfterCheck = %s
   PrivateSlots = %s
+  TokenReturned = TRUE
+  RecordSched = FALSE
 INVARIANTS %s
 VIEW View
+"""
+LCFG = """SPECIFICATION LiveSpec
+CONSTANTS
+  N = %d
+  K = %d
+  NFiles = 2
+  WaitBeforePrint = TRUE
+  ReleaseAfterCheck = TRUE
+  PrivateSlots = TRUE
+  TokenReturned = %s
+  RecordSched = FALSE
+PROPERTIES Terminates EveryFilePrinted
 """
 INV = "AtMostK NoCtxWriteDuringCheck PrintAfterAll SlotsComplete OutEqualsSequential TokensOK"
 
@@ -43,6 +57,13 @@ def run(ctx):
                              ("sharedSlot", ("TRUE", "TRUE", "FALSE"), "SlotsComplete")):
         r = ctx.tlc("FanOut", cfg_text=FCFG % ((3, 2) + flags + (inv,)), workers=4, timeout=300, expect="violation")
         design["whatif_" + name] = r.violated
+    # liveness under weak fairness: the run terminates and every file is printed; a token that is never returned starves
+    # the spawn loop as soon as there are more checkers than tokens (and only then: the semaphore is per file)
+    r = ctx.tlc("FanOut", cfg_text=LCFG % (3, 2, "TRUE"), workers=4, timeout=900, expect="ok")
+    design["liveness_N3_K2"] = r.distinct
+    design["whatif_tokenKept_N3_K2"] = ctx.tlc("FanOut", cfg_text=LCFG % (3, 2, "FALSE"), workers=4, timeout=900, expect="violation").violated
+    r = ctx.tlc("FanOut", cfg_text=LCFG % (2, 2, "FALSE"), workers=4, timeout=900, expect="ok")
+    design["tokenKept_but_K_ge_N_terminates"] = r.distinct
     design["analyzer"] = ac.design(ctx)
 
     # (a) recorded runs of the real binary
